@@ -1,5 +1,7 @@
 import Qentem.Model.Tmpl.Spec
 import Qentem.Proofs.TmplText
+import Qentem.Proofs.TmplParseSegs
+import Qentem.Proofs.TmplRenderSegs
 /-!
 # C02 — rendering a well-formed template yields the documented expansion
 
@@ -51,6 +53,69 @@ theorem render_parse_print_text {R : Type} [RealLike R] (cx : RCtx R) (sx : Spec
     (parse cfg cx.content).bind (fun tags => renderTop cx tags (fuel + 1)) =
       .ok (expand sx t (2 * t.length + 2)) := by
   rw [Qentem.Tmpl.render_text cx cfg hn fuel, expand, expandList_text sx t _ ht (Nat.le_refl _), hc]
+
+/-- stages 2+3, parse half: the printed text of a template made of text, `{var:p}`, `{raw:p}`
+and `{math:e}` (texts, paths and expressions free of `{ < }`, paths of 1..255 units) parses to
+exactly one Variable / RawVariable / Math tag per segment at the offsets the printer put them
+(`tagsOf`), nothing else; a Math tag holds the expression list scanned in place. -/
+theorem parse_segs {R : Type} (cfg : ScanCfg R) (segs : List Seg) (hok : ∀ s ∈ segs, s.ok)
+    (hn : (printList (segsTpl segs)).length + 16 < 4294967296) :
+    parse cfg (printList (segsTpl segs)) = .ok (tagsOf cfg (printList (segsTpl segs)) 0 segs) := by
+  rw [printSegs_eq] at hn ⊢
+  exact Qentem.Tmpl.parse_segs cfg segs hok (fun s _ => Seg.scanOk_all _ s) hn
+
+/-- a path of the documented shape `name[k1][k2]…` (non-empty name, no bracket inside the name or
+a key) is looked up by the renderer exactly as the document says (`resolve`), whether or not it
+leads to a value. -/
+theorem getValue_eq_resolve {R : Type} (cx : RCtx R) (hg : cx.guardIndexRead = true) (st : RState)
+    (A post p : List Nat) (hc : cx.content = A ++ (p ++ post)) (hp : PathOk p) :
+    getValue cx st ⟨A.length, p.length, 0, 0⟩ = .ok (resolve cx.root [] p).1 :=
+  getValue_path cx hg st A post p hc hp
+
+/-- the path shape is inhabited by the paths the document uses: `a[0]` -/
+example : PathOk [97, 91, 48, 93] :=
+  ⟨[97], [[48]], by simp [brk], by simp, by intro x hx; simp at hx; subst hx; decide,
+    by intro k hk; simp at hk; subst hk; intro x hx; simp at hx; subst hx; decide⟩
+
+/-- the scanner and the evaluator do not depend on where an expression sits in the content:
+scanning `e}` alone and scanning it `k` units into a longer content (after a unit that cannot end
+an operand, no `{` inside) give the same list with text operands moved by `k`, and the two lists
+evaluate to the same number. -/
+theorem scan_eval_relocatable {R : Type} [RealLike R] (cfg cfg' : ScanCfg R)
+    (hrn : cfg'.readNum = cfg.readNum) {c c' : List Nat} {k : Nat} (h : Reloc c c' k)
+    (hno : ∀ (i x : Nat), c[i]? = some x → x ≠ 123) (off endO : Nat) (he : endO < c.length)
+    (items : List (Item R)) (hp : parseTop cfg c off endO = .ok items)
+    (env env' : Env R) (henv : RelEnv env env' k) (hcont : env.content = c) :
+    ∃ items', parseTop cfg' c' (k + off) (k + endO) = .ok items' ∧
+      evaluateTop env' true items' = evaluateTop env true items := by
+  obtain ⟨items', h1, h2⟩ := parseTop_reloc cfg cfg' hrn h hno off endO he items hp
+  exact ⟨items', h1, (evaluateTop_reloc henv true items items' (by rw [hcont]; exact h2)).1⟩
+
+/-- stages 2+3 of `RenderParsePrint`: templates made of text, `{var:path}`, `{raw:path}` and
+`{math:expression}` in any number and order.  Texts, paths and expressions are free of `{ < }`
+(so the expressions are over literals: numbers, parentheses, all operators, text comparison);
+paths have the documented shape and 1..255 units and may or may not resolve in the value (an
+unresolved `{var:}` prints its own escaped source, an unresolved `{raw:}` / a `{math:}` without a
+value its source); the value, the number reader, the real-number formatter and the escape switch
+are arbitrary but the same on both sides. -/
+theorem render_parse_print_segs {R : Type} [RealLike R] (cx : RCtx R) (sx : SpecCtx R)
+    (cfg : ScanCfg R) (segs : List Seg) (hg : cx.guardIndexRead = true) (same : SameCtx cx sx)
+    (hrn : cfg.readNum = cx.readNum)
+    (hc : cx.content = printList (segsTpl segs)) (hok : ∀ s ∈ segs, s.ok)
+    (hpath : ∀ s ∈ segs, s.pathOk)
+    (hn : cx.content.length + 16 < 4294967296) (fuel fuel' : Nat) :
+    (parse cfg cx.content).bind (fun tags => renderTop cx tags (nTags segs + 2 + fuel)) =
+      .ok (expand sx (segsTpl segs) (segs.length + 1 + fuel')) := by
+  have hsc : ∀ s ∈ segs, s.scanOk cfg.readNum := fun s _ => Seg.scanOk_all _ s
+  rw [printSegs_eq] at hc
+  have hn' := hn
+  rw [hc] at hn'
+  have hp := Qentem.Tmpl.parse_segs cfg segs hok hsc hn'
+  rw [← hc] at hp
+  rw [hp]
+  simp only [Except.bind]
+  rw [render_segs cx cfg hg hrn segs hc hpath hok hsc _ (by omega), expand,
+    expandList_segs cx sx same segs _ (by omega)]
 
 /-- side conditions under which the document determines the output (the generator of
 `checks/c02.py` produces exactly such templates) — informal list kept next to the statement:
